@@ -546,6 +546,63 @@ def aesctr_drbg_chunking(chk):
     chk.floor('aesctr_drbg cases', n, 13)
 
 
+def shake_lane_complement(chk):
+    """The Keccak permutation of shake.c works on the lane-complemented state (Keccak implementation overview 2.2): lanes 1, 2, 8, 12,
+    17 and 20 are stored inverted.  The three places that know this must agree: br_shake_init sets exactly those lanes to all-ones
+    (complemented zero), and br_shake_produce re-inverts exactly those lanes when it serialises the state, lane k at byte 8k of the
+    output block.  A lane missed on output flips 64 bits of every block squeezed."""
+    R = 'shake-lane-complement'
+    src = 'src/kdf/shake.c'
+    u = build.load_unit(src)
+    L = irf.Layouts(u)
+    oa = L.field('br_shake_context', 'A')
+    ob = L.field('br_shake_context', 'dbuf')
+    if not oa or not ob:
+        raise AnalysisBroken('br_shake_context layout changed')
+    REF = [1, 2, 8, 12, 17, 20]
+    S = {'k': 'a', 'v': 0}
+    Fi = next((irf.Func(u, f) for f in u['functions'] if f['name'] == 'br_shake_init' and f.get('blocks')), None)
+    Fp = next((irf.Func(u, f) for f in u['functions'] if f['name'] == 'br_shake_produce' and f.get('blocks')), None)
+    if Fi is None or Fp is None:
+        raise AnalysisBroken('br_shake_init / br_shake_produce vanished')
+    ones = []
+    for i in Fi.insts.values():
+        if i['op'] == 'store' and i['ops'][0]['k'] == 'c' and i['ops'][0]['v'] == -1:
+            b, o = Fi.addr_of(i['ops'][1])
+            if b == S and o is not None and oa[0] <= o < oa[0] + oa[1] and (o - oa[0]) % 8 == 0:
+                ones.append((o - oa[0]) // 8)
+    inst = 'br_shake_init: lanes %s start as all-ones (complemented zero), the others as zero' % REF
+    if sorted(ones) == REF and any((c.get('callee') or '').startswith('llvm.memset') for c in Fi.calls()):
+        chk.ok(R, inst, src)
+    else:
+        chk.violation(R, inst, Fi.where(), 'lanes set to all-ones: %s' % sorted(ones), key=R + ' init')
+    lanes = {}
+    for c in Fp.calls('br_enc64le'):
+        b, off = Fp.addr_of(c['ops'][0])
+        v = Fp.strip_casts(c['ops'][1])
+        inv = False
+        if v['k'] == 'i' and Fp.insts[v['v']]['op'] == 'xor' and Fp.insts[v['v']]['ops'][1].get('v') == -1:
+            inv = True
+            v = Fp.strip_casts(Fp.insts[v['v']]['ops'][0])
+        if v['k'] == 'i' and Fp.insts[v['v']]['op'] == 'load':
+            lb, lo = Fp.addr_of(Fp.insts[v['v']]['ops'][0])
+            if lb == S and lo is not None and oa[0] <= lo < oa[0] + oa[1]:
+                db = off - ob[0] if (b == S and off is not None) else None
+                lanes[(lo - oa[0]) // 8] = (db, inv, c)
+    inst = 'br_shake_produce: all 25 lanes are serialised, lane k at byte 8k of the block, lanes %s re-inverted' % REF
+    if len(lanes) != 25:
+        raise AnalysisBroken('br_shake_produce: %d lane encodings recognised (expected 25)' % len(lanes))
+    badpos = [k for k, (db, inv, c) in lanes.items() if db != 8 * k]
+    badinv = sorted(k for k, (db, inv, c) in lanes.items() if inv != (k in REF))
+    if badpos or badinv:
+        k = (badpos + badinv)[0]
+        chk.violation(R, inst, Fp.where(lanes[k][2]), ('lane(s) %s written at the wrong offset' % badpos) if badpos else
+                      'lane(s) %s: %s - every squeezed block has those 64-bit lanes complemented' % (badinv, 'not re-inverted' if badinv[0] in REF else 'inverted although stored plain'),
+                      key=R + ' produce')
+    else:
+        chk.ok(R, inst, src)
+
+
 def shake_rules(chk):
     """SHAKE (FIPS 202): rate = 200 - 2 * (security level in bytes) = 168 / 136; padding is the suffix 1111 followed by pad10*1, i.e.
     byte 0x1F right after the message, zeros, and bit 7 of the last byte of the block set (0x9F when both fall on the same byte);
@@ -1023,6 +1080,7 @@ def run(tier):
     drbg_rules(chk)
     aesctr_drbg_chunking(chk)
     shake_rules(chk)
+    shake_lane_complement(chk)
     hkdf_expand(chk)
     state_save_restore(chk)
     aesctr_drbg_seed_padding(chk)
